@@ -733,7 +733,7 @@ class Interp:
                 self.probes['unknown_name_queued'] += 1
             self.queue.append(info)
             start = len(self.log)
-            e = self.guarded(lambda: self.d.dispatch(ev, *args, **kwargs),
+            e = self.guarded(lambda: self.d.dispatch(self.evname(ev), *args, **kwargs),
                              ('C04',), f'dispatch({ev}) while disabled')
             if len(self.log) != start:
                 self.fail('C04', 'delivered_while_disabled',
@@ -751,7 +751,7 @@ class Interp:
         if shape == 0:
             self.cur_plain.append(token)
         try:
-            e = self.guarded(lambda: self.d.dispatch(ev, *args, **kwargs),
+            e = self.guarded(lambda: self.d.dispatch(self.evname(ev), *args, **kwargs),
                              ('C03', 'C10'), f'dispatch({ev})')
         finally:
             self.dstack.pop()
@@ -759,6 +759,20 @@ class Interp:
                 self.cur_plain.pop()
         self.check_dispatch(rec, aborted=e is not None)
         self.finish(e, 'dispatch')
+
+    def evname(self, ev):
+        """The program names its events with a str-mixin Enum (equal to and
+        hashing like the plain strings the handlers declare; str() of a
+        member is 'Ev.a', not 'a')."""
+        if not self.cfg.get('enum_names'):
+            return ev
+        E = getattr(self, '_enum', None)
+        if E is None:
+            import enum
+            E = self._enum = enum.Enum('Ev', {e: e for e in EVENTS},
+                                       type=str)
+        self.probes['enum_event_name'] += 1
+        return E[ev]
 
     def op_burst(self, op):
         """n events of one name in a row (queue-length thresholds)."""
@@ -1175,6 +1189,8 @@ def gen_config(prop, rng, allow_base2=False):
         if rng.random() < .3:
             # at the end the program drops the dispatcher and every handler
             cfg['teardown'] = True
+    if prop == 'C03' and rng.random() < .1:
+        cfg['enum_names'] = True
     return cfg
 
 
@@ -1221,7 +1237,8 @@ def gen_script(prop, rng, cfg, state, act, acts):
 
 FAULT_KINDS = ['raise_Boom', 'raise_Quit', 'raise_SwitchWorld', 'disable',
                'disable_enable', 'redispatch', 'enable', 'add_handler',
-               'remove_handler', 'swap_handlers', 'guarded_nested_release']
+               'remove_handler', 'swap_handlers', 'guarded_nested_release',
+               'disable_dispatch']
 
 
 def fault_script(kind, rng, state):
@@ -1243,6 +1260,11 @@ def fault_script(kind, rng, state):
         state['stoken'] += 1
         return [['disable'], ['dispatch', rng.choice(EVENTS[:3]),
                               state['stoken'], 1], ['enable']]
+    if kind == 'disable_dispatch':
+        # ... and leaves it off: the new event queues up behind the backlog
+        state['stoken'] += 1
+        return [['disable'], ['dispatch', rng.choice(EVENTS[:3]),
+                              state['stoken'], 1]]
     if kind == 'guarded_nested_release':
         # disable, buffer a few events (the first receiver of the first one
         # raises), enable - all inside the callback's own try/except
@@ -1351,7 +1373,9 @@ def generate(prop, run_seed, tier='quick', tolerate=frozenset()):
     if prop == 'C04' and crng.random() < .12:
         # a long backlog: thresholds of batching "optimisations"
         ev = rng.choice(EVENTS[:3])
-        ops += [['disable'], ['burst', ev, crng.randint(66, 140), 5000]]
+        ops += [['disable'], ['burst', ev, crng.randint(66, 140)
+                                if crng.random() < .65
+                                else crng.randint(257, 420), 5000]]
         if rng.random() < .5:
             ops.append(gen_top_op('dispatch', rng, cfg, state))
         ops.append(['enable'])
